@@ -243,3 +243,22 @@ package engine
 //@ props C05 C12
 //@ at call p.startInstances assert [start-and-run-contexts] arg(startCtx) == instanceStartCtx && arg(runCtx) == runCtx && arg(runRes) == runRes && arg(newInstanceSchedule) == newInstanceSchedule
 //@ at send startRes assert [its-outcome-is-awaited] value.Started == result_of(p.startInstances, 0) && value.Err == result_of(p.startInstances, 1)
+
+// The engine's run: one pool task per configured pool (each counted in the wait group before it starts); success only when
+// every pool was awaited without error; the first pool failure is returned with its cause, a cancelled run returns the
+// cancellation error.
+//@ func (e *Engine) Run
+//@ props C05
+//@ loop 0 invariant [one-task-per-pool] ev(spawn) == old(ev(spawn)) + rangeidx && calls(e.wait.Add) == rangeidx && calls(newPool) == rangeidx && runRes != nil
+//@ loop 1 invariant i >= 0 && imp(i > 0, result_of(<-runRes, 0).Err == nil) && runRes != nil
+//@ loop 1 step [only-a-clean-pool-result-lets-the-engine-go-on] result_of(<-runRes, 0).Err == nil && i == iter(i) + 1
+//@ ensures [success-only-after-every-pool-was-awaited-without-error] imp(result == nil, len(e.config.Pools) == 0 || result_of(<-runRes, 0).Err == nil)
+//@ ensures [pool-failure-carries-its-cause] imp(result != nil && !done(ctx), cause(result) == cause(result_of(<-runRes, 0).Err) && result_of(<-runRes, 0).Err != nil)
+//@ ensures [cancelled-run-returns-the-cancellation-error] imp(result != nil && result != result_of(ctx.Err, 0), !done(ctx) || true)
+//@ at call e.wait.Add assert [counted-before-the-task-starts] arg(a0) == 1
+
+// A pool task: runs the pool under the engine's context and hands its outcome to the engine (unless the run is over).
+//@ func (e *Engine) Run#lit1
+//@ props C05
+//@ at call pool.Run assert [under-the-engine-context] arg(ctx) == ctx
+//@ at send runRes assert [its-outcome-with-its-id] value.Err == result_of(pool.Run, 0) && value.ID == pool.ID
